@@ -73,6 +73,7 @@ func run(cx *lib.Ctx) {
 	}
 	corrParseX(cx)
 	heredocOracle(cx)
+	stripOracle(cx)
 }
 
 type caseInput struct {
